@@ -1,6 +1,6 @@
 #!/usr/bin/env python3
 """Run every seeded change against the checks that should notice it and write seeded/MATRIX.md.
-   seed_matrix.py [--props C01,C04 | --all-props] [--only C04-A,C09-B]
+   seed_matrix.py [--props C01,C04 | --all-props] [--only C04-A,C09-B] [--shard i/n] [--out MATRIX-part.md]
 For each seed: scratch worktree of /repo + patch, VERIF_REPO, `./check <prop> quick` for the seed's own property
 (and the extra properties given), record exit code and VIOLATION lines. Sequential (checks share go/ and lean/)."""
 import json, os, re, subprocess, sys, time
@@ -11,17 +11,22 @@ if '--props' in args:
     extra = args[args.index('--props') + 1].split(',')
 if '--only' in args:
     only = set(args[args.index('--only') + 1].split(','))
+shard = None
+if '--shard' in args:
+    a, b = args[args.index('--shard') + 1].split('/')
+    shard = (int(a), int(b))
+outname = args[args.index('--out') + 1] if '--out' in args else 'MATRIX.md'
 claimed = [c['property_id'] for c in json.load(open(os.path.join(VERIF, 'MANIFEST.json')))['checks']]
 rows = []
-for sd in sorted(os.listdir(os.path.join(VERIF, 'seeded'))):
+for k, sd in enumerate(x for x in sorted(os.listdir(os.path.join(VERIF, 'seeded'))) if os.path.isdir(os.path.join(VERIF, 'seeded', x))):
     d = os.path.join(VERIF, 'seeded', sd)
-    if not os.path.isdir(d) or (only and sd not in only):
+    if (only and sd not in only) or (shard and k % shard[1] != shard[0]):
         continue
     prop = sd.split('-')[0]
     props = [p for p in dict.fromkeys([prop] + extra) if p in claimed]
     if '--all-props' in args:
         props = claimed
-    rw = f'/tmp/rw/matrix-{sd}'
+    rw = f'/tmp/rw/matrix-{os.getpid()}-{sd}'
     subprocess.run(['git', '-C', '/repo', 'worktree', 'add', '--detach', '-q', rw, 'HEAD'], check=True)
     try:
         if subprocess.run(['git', 'apply', os.path.join(d, 'patch.diff')], cwd=rw).returncode != 0:
@@ -39,7 +44,7 @@ for sd in sorted(os.listdir(os.path.join(VERIF, 'seeded'))):
         subprocess.run(['git', '-C', '/repo', 'worktree', 'remove', '--force', rw])
 subprocess.run(['python3', '-c', 'import sys, os, subprocess; sys.path.insert(0, "%s/tools"); import runner; runner.write_gowork(); '
                 'subprocess.run([os.path.join(runner.GO, "bin", "extract"), "-repo", "/repo", "-out", os.path.join(runner.LEAN, "RoGen")], env=runner.GOENV)' % VERIF])
-with open(os.path.join(VERIF, 'seeded', 'MATRIX.md'), 'w') as f:
+with open(os.path.join(VERIF, 'seeded', outname), 'w') as f:
     f.write('# Seeded changes vs checks (quick tier)\n\n| seed | what it changes (from its meta.json) | check | result | reported as |\n|---|---|---|---|---|\n')
     for sd, p, res, why in rows:
         try:
@@ -47,4 +52,4 @@ with open(os.path.join(VERIF, 'seeded', 'MATRIX.md'), 'w') as f:
         except Exception:
             summ = ''
         f.write(f'| {sd} | {summ} | {p} | {res} | {why.replace("|", "/")} |\n')
-print('written seeded/MATRIX.md')
+print('written seeded/' + outname)
